@@ -43,12 +43,23 @@ func isReflectType(t types.Type) bool {
 	return false
 }
 
+func isContextType(t types.Type) bool {
+	if n, ok := t.(*types.Named); ok {
+		o := n.Obj()
+		return o.Pkg() != nil && o.Pkg().Path() == "context" && o.Name() == "Context"
+	}
+	return false
+}
+
 func kindOf(t types.Type) valKind {
 	if t == nil {
 		return kRef
 	}
 	if isReflectType(t) {
 		return kOpaque // a reflect.Type is represented by its type id
+	}
+	if isContextType(t) {
+		return kRef // contexts are references into the persistent-map model of context.Context
 	}
 	switch u := t.Underlying().(type) {
 	case *types.Basic:
